@@ -1,5 +1,6 @@
 import GormModel.Drv.Util
 import GormModel.Model.Assoc
+import GormModel.Model.AssocPoly
 open Lean
 namespace Gorm.Drv
 open Gorm.Assoc
@@ -46,6 +47,47 @@ def runObs (r : Rel) (os : List Nat) : List Op → St → List Json
     let s' := step r os op { s with log := [] }
     obsJ r os op s' :: runObs r os ops s'
 
+/-! polymorphic link store (Model.AssocPoly) -/
+
+def parsePRel (j : Json) : Option AssocPoly.PRel := do
+  some { one := ← jBool? (← (j.getObjVal? "one").toOption), ty := ← jNat? (← (j.getObjVal? "ty").toOption) }
+
+def parsePOp (j : Json) : Option AssocPoly.POp := do
+  let k ← jStr? (← (j.getObjVal? "op").toOption)
+  let kind ← match k with
+    | "append" => some OpKind.append
+    | "replace" => some OpKind.replace
+    | "delete" => some OpKind.delete
+    | "clear" => some OpKind.clear
+    | _ => none
+  let uns := ((j.getObjVal? "unscoped").toOption.bind jBool?).getD false
+  let args ← (← jArr? (← (j.getObjVal? "args").toOption)).toList.mapM fun a => do
+    let x ← jArr? a
+    some ({ o := ← jNat? (arg x 0), held := ← parseNatList (arg x 1), vals := ← parseNatList (arg x 2) } : AssocPoly.Arg)
+  let named := ((j.getObjVal? "named").toOption.bind parseNatList).getD []
+  some { rel := ← parsePRel j, kind := kind, unscoped := uns, args := args, named := named }
+
+def sortRows (l : List AssocPoly.Row) : List AssocPoly.Row :=
+  (l.toArray.qsort (fun a b => a.id < b.id || (a.id == b.id && (a.oid < b.oid || (a.oid == b.oid && a.oty < b.oty))))).toList
+
+def colName : AssocPoly.Col → String
+  | .oid => "id"
+  | .oty => "type"
+
+def polyObsJ (op : AssocPoly.POp) (s : AssocPoly.St) : Json :=
+  Json.mkObj [
+    ("rows", Json.arr ((sortRows s.rows).map (fun x => natListJ [x.id, x.oid, x.oty])).toArray),
+    ("next", natJ s.next),
+    ("count", natJ (AssocPoly.count op.rel op.os s.rows)),
+    ("find", natListJ (sortNat (AssocPoly.findIds op.rel op.os s.rows))),
+    ("stmts", strListJ s.log)]
+
+def polyRunObs : List AssocPoly.POp → AssocPoly.St → List Json
+  | [], _ => []
+  | op :: ops, s =>
+    let s' := AssocPoly.step op { s with log := [] }
+    polyObsJ op s' :: polyRunObs ops s'
+
 end HC12
 
 open HC12 in
@@ -75,6 +117,22 @@ def handleC12 (op : String) (args : Array Json) : Option Json := do
     let s0 : St := { links := links, targets := targets, next := next, mem := mem0,
                      memFk := fun o => if cls = .bt then (mem0 o).headD 0 else 0 }
     some (Json.arr (runObs ⟨cls, card1⟩ os ops s0).toArray)
+  | "assoc.poly" =>
+    -- ["assoc.poly", {rows: [[id, oid, oty]…], next, ops: [{one, ty, op, unscoped, args: [[o, held, vals]…], named}]}]
+    let j := arg args 1
+    let rows ← (← jArr? (← (j.getObjVal? "rows").toOption)).toList.mapM fun r => do
+      let a ← jArr? r
+      some ({ id := ← jNat? (arg a 0), oid := ← jNat? (arg a 1), oty := ← jNat? (arg a 2) } : AssocPoly.Row)
+    let next ← jNat? (← (j.getObjVal? "next").toOption)
+    let ops ← (← jArr? (← (j.getObjVal? "ops").toOption)).toList.mapM parsePOp
+    some (Json.arr (polyRunObs ops { rows := rows, next := next }).toArray)
+  | "assoc.polycols" =>
+    -- ["assoc.polycols", {one, ty}] -> DO UPDATE SET column list of the relation's upsert + the element's stored pair
+    let r ← parsePRel (arg args 1)
+    let e := AssocPoly.elem r 1 7
+    some (Json.mkObj [("cols", strListJ ((AssocPoly.assignCols r).map colName)),
+                      ("elem", natListJ [e.id, e.oid, e.oty]),
+                      ("conds", strListJ ((r.refs.filterMap fun | .value _ => some "type" | .ownPk => none) ++ ["id"]))])
   | "assoc.ck" =>
     -- ["assoc.ck", linked tuples, named tuples] -> records created by Append(linked), in-memory field after Delete(named)
     let tup (j : Json) : Option (List (List (List Char))) := do
